@@ -454,3 +454,17 @@ Definition observe (s : store) (lf : nat) : option (list var * list nat * tensor
       end
   | _ => None
   end.
+
+(* the FactorSet constructor copies every factor it is given (self.factors = set([factor.copy() ...])); FactorSet.copy()
+   and the out-of-place product a.product(b, inplace=False) = a.copy() + b.copy()'s factors therefore hold fresh
+   copies of all member factors of both operands *)
+Fixpoint store_copy_all (s : store) (lfs : list nat) : option (store * list nat) :=
+  match lfs with
+  | [] => Some (s, [])
+  | lf :: r => match store_copy s lf with
+               | Some (s1, lf') => match store_copy_all s1 r with
+                                   | Some (s2, ls) => Some (s2, lf' :: ls)
+                                   | None => None end
+               | None => None end
+  end.
+Definition factorset_product_store (s : store) (a b : list nat) : option (store * list nat) := store_copy_all s (a ++ b).
